@@ -42,11 +42,60 @@ PROPS = {
     },
     "C03": {
         "profile": "all", "n_quick": 4, "n_thorough": 30, "nops": 18, "nlists": 3, "cfgs": SIX,
-        "monitor": M.mon_C03,
+        "monitor": M.mon_C03, "check_ids": True,
         "relevant": M.relevant_by(M.proj({"N", "X", "MN", "MX"}, keep_snap=True)),
         "rule": "machines with completion, deferral, history and blocking states; after every operation the reported "
                 "active ids at every level are checked against the entry/exit ledger and the regions' state sets",
         "assumptions": ["exception-free behaviours"],
+    },
+    "C04": {
+        "profile": "rtc", "n_quick": 5, "n_thorough": 40, "nops": 16, "nlists": 3, "cfgs": SIX,
+        "monitor": M.mon_C04,
+        "relevant": M.relevant_by(M.proj(M.ALL, keep_res=True, keep_snap=True, keep_ev=True)),
+        "rule": "machines whose behaviours submit (process_event / enqueue_event) 0-3 further events at planned behaviour "
+                "positions, plus enqueue / drain / single-step operations from outside; payloads identify occurrences; "
+                "cases in which the model reports re-entrant processing (known finding F16: submission from a substate's exit "
+                "while the enclosing machine leaves the submachine) are discarded and counted",
+        "assumptions": ["queue containers of sufficient capacity (std::deque)", "no throws in these runs"],
+    },
+    "C05": {
+        "profile": "defer", "n_quick": 5, "n_thorough": 40, "nops": 18, "nlists": 3, "cfgs": SIX,
+        "monitor": None,
+        "relevant": M.relevant_by(M.proj(M.ALL, keep_res=True, keep_snap=True, keep_ev=True)),
+        "rule": "machines with deferring states inside the documented envelope (deferred event not handled by the same "
+                "state nor in a sibling region); payloads identify occurrences; the pinned replay walks the sequence "
+                "counter across its wrap-around",
+        "assumptions": ["back/back11: deferral as documented (see quantifier)", "no throws"],
+    },
+    "C08": {
+        "profile": "hist", "n_quick": 5, "n_thorough": 40, "nops": 18, "nlists": 3, "cfgs": SIX,
+        "monitor": None,
+        "relevant": M.relevant_by(M.proj({"N", "MN", "X", "MX"}, keep_snap=True)),
+        "rule": "nested machines, each submachine with a random history policy (none / always / shallow on 1-2 event "
+                "types); histories of enter / move / exit cycles by random events",
+        "assumptions": CORE_ASSUME,
+    },
+    "C10": {
+        "profile": "compl", "n_quick": 5, "n_thorough": 40, "nops": 16, "nlists": 3, "cfgs": SIX,
+        "monitor": None,
+        "relevant": M.relevant_by(M.proj(M.ALL, keep_res=True, keep_snap=True, keep_ev=True)),
+        "rule": "machines with completion rows from simple states (guards, conflicts, chains towards later states)",
+        "assumptions": ["guard results of a completion row are fixed during one operation"],
+    },
+    "C11": {
+        "profile": "block", "n_quick": 5, "n_thorough": 40, "nops": 18, "nlists": 3, "cfgs": SIX,
+        "monitor": None,
+        "relevant": M.relevant_by(M.proj(M.ALL, keep_res=True, keep_snap=True)),
+        "rule": "machines with terminate and interrupt states (1-2 end-interrupt events) at any level",
+        "assumptions": CORE_ASSUME,
+    },
+    "C12": {
+        "profile": "throw", "n_quick": 5, "n_thorough": 40, "nops": 16, "nlists": 3, "cfgs": SIX,
+        "monitor": M.mon_C12,
+        "relevant": M.relevant_by(M.proj(M.ALL, keep_res=True, keep_snap=True, keep_ev=True)),
+        "rule": "plans make the n-th behaviour invocation of an operation throw std::runtime_error (guards, actions, "
+                "entries, exits at every level), mixed with submissions; continuation operations follow every fault",
+        "assumptions": ["exceptions derive from std::exception; no_exception_thrown is not configured"],
     },
     "C19": {
         "profile": "nest", "n_quick": 3, "n_thorough": 16, "nops": 14, "nlists": 3,
